@@ -51,18 +51,25 @@ TextSem ==
    tG    |-> T(1, 0, 0, <<>>, 0, {}, 0),                      \* lexical error
    tH    |-> T(0, 0, 0, <<Prelude>>, 0, {}, 1),               \* accepted by front end, back-end error
    tN    |-> T(0, 0, 0, <<Prelude, "s">>, 2, {}, 0),          \* ambiguous name: symbol resolution error
-   tK    |-> T(0, 0, 0, <<Prelude>>, 10, {}, 0)]              \* attribute errors (messages that list sets of names)
+   tK    |-> T(0, 0, 0, <<Prelude>>, 10, {}, 0),              \* attribute errors (messages that list sets of names)
+   \* two disjoint import cycles below one main file: the diagnostics list both (in an order that must not depend on hashing)
+   tW    |-> T(0, 0, 0, <<Prelude, "x1", "y1">>, 3, {}, 0),
+   tX1   |-> T(0, 0, 0, <<Prelude, "x2">>, 3, {}, 0),
+   tX2   |-> T(0, 0, 0, <<Prelude, "x1">>, 3, {}, 0),
+   tY1   |-> T(0, 0, 0, <<Prelude, "y2">>, 3, {}, 0),
+   tY2   |-> T(0, 0, 0, <<Prelude, "y1">>, 3, {}, 0)]
 
 PreludeText == "tPre"
 
 (* File system: directory -> file -> text.  d3 repeats d1's `s` verbatim;  *)
 (* d2 has a *different* text under the same name.                           *)
 FS ==
-  [d1 |-> [a |-> "tA", s |-> "tS1", b |-> "tB", c |-> "tC", d |-> "tD", e |-> "tE", f |-> "tF", g |-> "tG", h |-> "tH", n |-> "tN", k |-> "tK"],
+  [d1 |-> [a |-> "tA", s |-> "tS1", b |-> "tB", c |-> "tC", d |-> "tD", e |-> "tE", f |-> "tF", g |-> "tG", h |-> "tH", n |-> "tN", k |-> "tK",
+          w |-> "tW", x1 |-> "tX1", x2 |-> "tX2", y1 |-> "tY1", y2 |-> "tY2"],
    d2 |-> [s |-> "tS2"],
    d3 |-> [s |-> "tS1", a |-> "tA"]]
 
-FileNames == {"a", "s", "b", "c", "d", "e", "f", "g", "h", "n", "k", "missing"}
+FileNames == {"a", "s", "b", "c", "d", "e", "f", "g", "h", "n", "k", "w", "x1", "x2", "y1", "y2", "missing"}
 
 Has(d, f) == f \in DOMAIN FS[d]
 RECURSIVE Resolve(_, _)
@@ -78,7 +85,7 @@ DeepChoices ==
    C("d", <<"d2", "d1">>, "inproc")}
 (* generator sets: schedules to replay in-process ("gen"), fresh processes ("cli") *)
 GenChoices == DeepChoices \cup {C("b", <<"d1">>, "inproc"), C("n", <<"d1">>, "inproc"), C("k", <<"d1">>, "inproc")}
-CliMains == {"a", "b", "c", "d", "f", "g", "h", "n", "s", "k"}
+CliMains == {"a", "b", "c", "d", "f", "g", "h", "n", "s", "k", "w"}
 CliChoices ==
   {C(m, <<"d1">>, mode) : m \in CliMains, mode \in {"inproc", "split"}}
   \cup {C("a", dirs, "inproc") : dirs \in {<<"d1", "d3">>, <<"d3", "d1">>, <<"d2", "d1">>}}
